@@ -32,6 +32,11 @@ CLAIMED = {
         "Trusted: exact big-rational rounding oracle (vcore), the harness's own decoder of the packed format; formats are limited to the compiled catalogue (core group).",
         "property-based testing (proptest, one runner per format) against an exact-arithmetic reference oracle",
     ),
+    "C11": (
+        "For every valid compiled format (core, syntax, prebuilt, write, separator groups) x float types (standard and custom punctuation) x integer types: all strings up to length 4 (thorough 5) over the per-format alphabet incl. separator, prefix/suffix and special-string letters, plus generated numbers with prefixes, suffixes and one-byte mutations. Pure relations: complete(s)=Ok(v) iff partial(s)=Ok((v,len)); partial(s)=Ok((v,n)), n>0 implies complete(s[..n])=Ok(v).",
+        "Trusted: nothing beyond the harness plumbing (relation between two API calls). Three deviations are recorded as known findings with narrow structural matchers (integer sign-without-digits, specials that are numeric in large radices, empty number before a special when digits are optional).",
+        "bounded-exhaustive enumeration + property-based testing of a relational (metamorphic) oracle",
+    ),
     "C12": (
         "Bounded-exhaustive: every string up to length 4 (thorough 5) over a per-format number alphabet for every valid separator-free compiled format (18 single flags, all valid flag pairs, 90 random 3-8 flag words, 27+ base prefix/suffix variants, 147 prebuilt language formats, radix and write-flag formats) x {f64, f32, i32/u64}: lexical's complete parser must accept exactly what the reference grammar derives, with the exactly rounded / exact integer value. The reference grammar is validated against the 216 hidden doc TEST assertions at setup. Per-flag dependence counts are reported.",
         "Trusted: reference grammar transcribed from the NumberFormatBuilder documentation (harness/vcore/refparse.rs); only compiled catalogue formats are reached; the oracle abstains on a bare sign when digits are optional. Two documented-grammar deviations are recorded as known findings (empty string / digit-less integers accepted when digits are optional).",
